@@ -38,11 +38,11 @@ var IterStops = []string{"StopIteration", "StopIteration()", "StopIteration(77)"
 var IterConsumers = []string{
 	"for", "listcomp", "setcomp", "dictcomp", "genexp", "unpack", "starred", "starcall",
 	"list", "tuple", "set", "sum", "min", "max", "sorted", "zipl", "zipr", "map", "filter", "enumerate", "any", "all", "in", "notin", "join",
-	"forbreak", "nestedfor", "listiter", "whilenext", "nextdefault", "sortedkey", "minkey", "maxkey", "sortedrev", "sumstart", "unpacknested", "forunpack", "listofgen", "anygen", "chainfor",
+	"forbreak", "nestedfor", "listiter", "whilenext", "nextdefault", "sortedkey", "minkey", "maxkey", "sortedrev", "sumstart", "unpacknested", "forunpack", "listofgen", "anygen", "chainfor", "extend", "iadd", "sliceassign",
 }
 
 var iterWrappers = []string{"deleg", "map", "filter", "genexp", "zipl", "enum", "deleg"}
-var iterLeaves = []string{"gen", "gen", "gen", "iter", "iter", "seq", "list", "range", "tuple", "genfin", "genleak", "coro"}
+var iterLeaves = []string{"gen", "gen", "gen", "iter", "iter", "seq", "list", "range", "tuple", "genfin", "genleak", "coro", "lenseq"}
 
 // IterExclude lists features that must not be generated (known findings).
 type IterExclude map[string]bool
@@ -266,6 +266,14 @@ class Seq:
     def __iter__(self):
         log(self.a[0], "iter")
         return It(self.a[0], self.a[1], self.a[2], self.a[3], self.a[4])
+class LenSeq:
+    # __len__ is only a hint: consumers must still drive __iter__/__next__ to StopIteration
+    def __init__(self, tag, n, claimed):
+        self.a = (tag, n, claimed)
+    def __len__(self):
+        return self.a[2]
+    def __iter__(self):
+        return It(self.a[0], self.a[1], -1, None, StopIteration)
 def gen(tag, n, fail, exc):
     log(tag, "start")
     try:
@@ -370,6 +378,12 @@ func (p *IterProg) Render() string {
 				e = fmt.Sprintf("genleak(%d, %d)", pr.Tag, pr.N)
 			case "coro":
 				e = fmt.Sprintf("Coro(%d, %d)", pr.Tag, pr.N)
+			case "lenseq":
+				claimed := pr.N - 2 + pr.Tag%5
+				if claimed < 0 {
+					claimed = 0
+				}
+				e = fmt.Sprintf("LenSeq(%d, %d, %d)", pr.Tag, pr.N, claimed)
 			case "iter":
 				e = fmt.Sprintf("It(%d, %d, %d, %s, %s)", pr.Tag, pr.N, pr.Fail, exc, pr.Stop)
 			case "seq":
@@ -481,6 +495,14 @@ func consumerBody(c, id, g string, v, tag int) string {
 		return one(fmt.Sprintf("%d not in %s", tag*100+v, g))
 	case "join":
 		return one(fmt.Sprintf("\",\".join(map(str, %s))", g))
+	case "extend":
+		return fmt.Sprintf("_l = [0]\n_l.extend(%s)\nlog(%s, \"extend\", _l)", g, id)
+	case "iadd":
+		return fmt.Sprintf("_l = [0]\n_l += %s\nlog(%s, \"iadd\", _l)", g, id)
+	case "sliceassign":
+		return fmt.Sprintf("_l = [0, 1, 2]\n_l[1:2] = %s\nlog(%s, \"sliceassign\", _l)", g, id)
+	case "tupleadd":
+		return one(fmt.Sprintf("(0,) + tuple(%s)", g))
 	case "nextdefault":
 		return fmt.Sprintf("log(%s, \"nextdefault\", next(%s, \"dflt\"), next(%s, None))", id, g, g)
 	case "sortedkey":
